@@ -1,6 +1,6 @@
 (* C02 — The returned tree holds exactly the matches on the successful path, in order. *)
 From PegV Require Import Utf8 Utf8Facts State Terminals TerminalsSpec TerminalsOk Syntax Fields
-  FieldsFacts GetFieldsFacts Literals LiteralsFacts Model Spec ShapeFacts ErrLog Sim Conform ConformX Extracted.
+  FieldsFacts GetFieldsFacts Literals LiteralsFacts Model Spec ShapeFacts ErrLog Sim Conform ConformX MemoEq MemoSpec Extracted.
 
 Theorem C02_facts :
   rec_le Extracted.scfg = true /\ Extracted.tcfg = term_cfg_expected /\
@@ -64,3 +64,24 @@ Theorem C02_order : forall fd a b,
   Some (VList (map (wrap_enum fd) (mine (fd_name fd) a) ++ map (wrap_enum fd) (mine (fd_name fd) b))).
 Proof. intros fd a b H. rewrite field_value_multiple, mine_app, map_app by exact H. reflexivity. Qed.
 Print Assumptions C02_order.
+
+(* grammars with @memoize rules (any subset, no @leftrec rule): the tree is still the one the
+   specification builds from the events of the successful path *)
+Theorem C02_tree_memoized :
+  forall (ustate : Type) (hk : hooks ustate) (shk : shooks) (g : grammar),
+    pure_hooks ustate hk shk ->
+    (forall r, In (GRule r) g -> fl_left_recursive (flags_of (r_directives r)) = false) ->
+    forall n m rule_name cs u v st', all_scalar cs ->
+      fst (m_parse ustate Extracted.scfg Extracted.tcfg Extracted.fcfg Extracted.rcfg hk g
+                   n rule_name (encode_str cs) u) = MOk v st' ->
+      s_parse Extracted.fcfg shk g true m rule_name cs = SFuel \/
+      (exists p, fst (m_parse ustate Extracted.scfg Extracted.tcfg Extracted.fcfg Extracted.rcfg hk (strip g)
+                              m rule_name (encode_str cs) u) = MPanic p) \/
+      exists cs' l, s_parse Extracted.fcfg shk g true m rule_name cs = SOk v cs' (off st') l.
+Proof.
+  intros ustate hk shk g Hp NoLR n m rule_name cs u v st' Hs E.
+  pose proof (memoized_vs_spec ustate Extracted.scfg Extracted.fcfg Extracted.rcfg hk shk g
+                eq_refl eq_refl eq_refl Hp NoLR n m rule_name cs u Hs) as C.
+  change term_cfg_expected with Extracted.tcfg in C. rewrite E in C. exact C.
+Qed.
+Print Assumptions C02_tree_memoized.
